@@ -92,6 +92,8 @@ type Net struct {
 	misuse   []string
 	// KeepBytes controls whether the tap keeps serialized frames (needed by the monitors).
 	onHandlerDone func(s *Stream, err error)
+	// AfterSend, if set, runs after a successful SendMsg has queued its frame and before the call returns (no lock held).
+	AfterSend func(s *Stream, d Dir)
 }
 
 func NewNet() *Net {
@@ -649,8 +651,17 @@ func (c *clientStream) CloseSend() error {
 
 func (c *clientStream) SendMsg(m any) error {
 	s := c.s
-	n := s.net
 	defer s.enter(&s.cliSending, "SendMsg")()
+	err := c.sendMsg(m)
+	if h := s.net.AfterSend; h != nil && err == nil {
+		h(s, C2S) // the call may return late: the frame is already on its way
+	}
+	return err
+}
+
+func (c *clientStream) sendMsg(m any) error {
+	s := c.s
+	n := s.net
 	b, merr := proto.Marshal(m.(proto.Message))
 	n.mu.Lock()
 	defer n.mu.Unlock()
@@ -781,8 +792,17 @@ func (ss *serverStream) SetTrailer(md metadata.MD) {
 
 func (ss *serverStream) SendMsg(m any) error {
 	s := ss.s
-	n := s.net
 	defer s.enter(&s.srvSending, "ServerStream.SendMsg")()
+	err := ss.sendMsg(m)
+	if h := s.net.AfterSend; h != nil && err == nil {
+		h(s, S2C)
+	}
+	return err
+}
+
+func (ss *serverStream) sendMsg(m any) error {
+	s := ss.s
+	n := s.net
 	b, merr := proto.Marshal(m.(proto.Message))
 	n.mu.Lock()
 	defer n.mu.Unlock()
